@@ -28,6 +28,7 @@ type sigEntry struct {
 	key, data, sig seqRef
 	v              *Term
 	scope          int
+	signed         bool // entry of a signing primitive (its answer is the signer's success)
 }
 
 func (u *Unit) seqRefOf(st *State, v Val) seqRef {
@@ -74,13 +75,19 @@ func (u *Unit) logSig(st *State, alg *Term, key, data, sig seqRef, fixed *Term) 
 		v = u.newBool("sigok")
 	}
 	for _, e := range u.liveSigLog() {
+		if !e.signed && fixed == nil {
+			// determinism is only put to use between a signing and a
+			// verification (what was signed verifies); two verifications
+			// with unknown answers are not compared
+			continue
+		}
 		m := And(Eq(alg, e.alg), u.hypSeqEq(key, e.key), u.hypSeqEq(data, e.data), u.hypSeqEq(sig, e.sig))
 		if m.IsBool && !m.B {
 			continue
 		}
 		u.assume(Implies(m, Eq(v, e.v)))
 	}
-	u.sigLog = append(u.sigLog, &sigEntry{alg: alg, key: key, data: data, sig: sig, v: v, scope: u.S.ScopeID()})
+	u.sigLog = append(u.sigLog, &sigEntry{alg: alg, key: key, data: data, sig: sig, v: v, scope: u.S.ScopeID(), signed: fixed != nil})
 	u.Assumed["A-SIG: signature primitives are uninterpreted deterministic predicates of (algorithm, key bytes, message bytes, signature bytes); sigvalid is what they report"]++
 	return v
 }
@@ -107,6 +114,10 @@ var errType = types.Universe.Lookup("error").Type()
 // (an uninterpreted integer per dynamic type or per opaque object).
 func (u *Unit) keyAlg(st *State, k IfaceV) *Term {
 	if k.Dyn != nil {
+		if k.Dyn.String() == "github.com/go-i2p/crypto/ed25519.Ed25519PublicKey" {
+			// read from the pinned dependency: its verifier calls crypto/ed25519.Verify
+			return IntLit(7)
+		}
 		key := "alg:" + k.Dyn.String()
 		if v, ok := st.memo[key]; ok {
 			return v.(*Term)
@@ -186,6 +197,14 @@ func (u *Unit) sigObjectModel(st *State, fr *Frame, in *ssa.Call, recv IfaceV, m
 			key = u.seqRefOf(st, u.freshVal(st, types.NewSlice(types.Typ[types.Uint8]), "unknownkey", false))
 		}
 		v := u.logSig(st, alg, key, u.seqRefOf(st, args[0]), u.seqRefOf(st, args[1]), nil)
+		if hasOwner && owner.Dyn != nil && owner.Dyn.String() == "github.com/go-i2p/crypto/ed25519.Ed25519PublicKey" {
+			// A-DEP-ED25519 (read from go-i2p/crypto at the pinned version):
+			// Ed25519Verifier.Verify returns nil exactly when the signature has
+			// 64 bytes, the key 32 and crypto/ed25519.Verify accepts
+			u.Assumed["A-DEP-ED25519: go-i2p/crypto Ed25519Verifier.Verify(data, sig) == nil iff len(sig) == 64 && len(key) == 32 && crypto/ed25519.Verify(key, data, sig)"]++
+			_, _, sl := u.seqOf(st, args[1])
+			return IfaceV{Nil: And(v, Eq(sl, IntLit(64)), Eq(key.l, IntLit(32))), Opq: u.newInt("verr")}, true
+		}
 		return IfaceV{Nil: v, Opq: u.newInt("verr")}, true
 	case m.Name() == "Sign" && sig.Params().Len() == 1 && isBytes(sig.Params().At(0).Type()) &&
 		sig.Results().Len() == 2 && isBytes(sig.Results().At(0).Type()):
